@@ -45,6 +45,19 @@ pub struct RunReport {
     pub trace: Vec<String>,
 }
 
+impl RunReport {
+    /// Hash of the operations' outcomes only (not of the event log): what a
+    /// caller could observe of this run.
+    pub fn outcome_fp(&self) -> u64 {
+        let mut h = Fnv::new();
+        for l in &self.lines {
+            h.str(l);
+        }
+        h.str(self.violation.as_ref().map(|v| v.class.as_str()).unwrap_or("-"));
+        h.0
+    }
+}
+
 fn probe(r: &mut RunReport, k: &str, n: u64) {
     if n > 0 {
         *r.probes.entry(k.to_string()).or_insert(0) += n;
